@@ -169,7 +169,9 @@ impl View {
     }
 
     pub fn see_label(&mut self, l: &PLabel) {
-        if !self.labels_seen.contains(l) {
+        // every bound label is compared through kids(); probing kid() for labels that are NOT bound
+        // on a vertex is limited to the first 24 labels of a run
+        if self.labels_seen.len() < 24 && !self.labels_seen.contains(l) {
             self.labels_seen.push(l.clone());
         }
     }
